@@ -30,7 +30,7 @@ def apply(mut, root):
 
 
 def main(a):
-    from dsim.mutants import MUTANTS
+    from dsim.mutants import MUTANTS, EXPECTED_MISS
     from dsim.props import PROPS
     only = a.only.split(",") if a.only else None
     props = set(a.rest) if a.rest else None
@@ -72,7 +72,10 @@ def main(a):
         finally:
             shutil.rmtree(root, ignore_errors=True)
     caught = sum(1 for _, st, _ in results if st == "CAUGHT")
-    missed = [m["id"] for m, st, _ in results if st == "MISSED"]
+    missed = [m["id"] for m, st, _ in results if st == "MISSED" and m["id"] not in EXPECTED_MISS]
+    for m_, st, _ in results:
+        if m_["id"] in EXPECTED_MISS:
+            print(f"expected miss {m_['id']}: {st} ({EXPECTED_MISS[m_['id']]})")
     other = [(m["id"], st) for m, st, _ in results if st not in ("CAUGHT", "MISSED")]
     print(f"SENSITIVITY caught={caught} missed={len(missed)} other={len(other)} total={len(results)}")
     if missed:
